@@ -26,7 +26,7 @@ Inductive aaction :=
 Definition adecision := (list call * aaction)%type.
 Definition ahandler_fn := config -> hdr -> N * N * N -> bytes -> fsres -> N -> adecision.
 
-(* Four yes/no facts about the source that the translator (translator/server_async_dispatch.py ->
+(* Six yes/no facts about the source that the translator (translator/server_async_dispatch.py ->
    Gen/RustAsyncDispatch.v) reads off on every run; the model is written over them, so that it keeps
    following the code when one of the defects they stand for (DESIGN.md section 4, D11, and the async_commit
    defect) is repaired.  [code_shape] is the code as it is. *)
@@ -34,16 +34,23 @@ Record shape := {
   sh_gate_capacity : bool;        (* the gate tests `ctx.w.available_bytes() < size_of::<OutHeader>()` *)
   sh_gate_exempts_forget : bool;  (* the gate returns without a reply for an oversized FORGET / BATCH_FORGET (as the sync gate does) *)
   sh_write_gate : bool;           (* async_write answers ENOMEM itself when size > MAX_BUFFER_SIZE *)
-  sh_commit_skips : bool          (* FuseDevWriter::async_commit starts with `if !self.buffered { return Ok(0) }` (as commit does) *)
+  sh_commit_skips : bool;         (* FuseDevWriter::async_commit starts with `if !self.buffered { return Ok(0) }` (as commit does) *)
+  sh_lookup_badname : bool;       (* async_lookup answers EINVAL when the name has no NUL, before returning the decode error *)
+  sh_create_badname : bool        (* async_create does *)
 }.
 Definition code_shape : shape :=
   {| sh_gate_capacity := rust_async_gate_checks_capacity;
      sh_gate_exempts_forget := rust_async_gate_exempts_forget;
      sh_write_gate := negb (rust_async_write_gate_errno =? 0);
-     sh_commit_skips := rust_async_commit_skips_unbuffered |}.
+     sh_commit_skips := rust_async_commit_skips_unbuffered;
+     sh_lookup_badname := rust_async_lookup_badname_replies;
+     sh_create_badname := rust_async_create_badname_replies |}.
+(* both name-decoding async handlers answer a bad name (the sync handlers always do) *)
+Definition names_answered (sh : shape) : bool := sh_lookup_badname sh && sh_create_badname sh.
 (* the shape after the three patches of /verif/fixes/C20-*.patch *)
 Definition fixed_shape : shape :=
-  {| sh_gate_capacity := false; sh_gate_exempts_forget := true; sh_write_gate := false; sh_commit_skips := true |}.
+  {| sh_gate_capacity := false; sh_gate_exempts_forget := true; sh_write_gate := false; sh_commit_skips := true;
+     sh_lookup_badname := true; sh_create_badname := true |}.
 
 (* an arm of the async dispatch that calls the sync handler *)
 Definition fallback (f : handler_fn) : ahandler_fn := fun cfg h ctx r fr wcap =>
@@ -56,12 +63,13 @@ Definition awith_obj (n : nat) (r : bytes) (k : bytes -> bytes -> adecision) : a
   end.
 
 (* get_message_body then bytes_to_cstr; on a bad name: async_reply_error(EINVAL), return Err(e) *)
-Definition awith_name (r : bytes) (hlen sub : N) (k : bytes -> adecision) : adecision :=
+Definition awith_name (answers : bool) (r : bytes) (hlen sub : N) (k : bytes -> adecision) : adecision :=
   match get_message_body r hlen sub with
   | inl e => ([], ASync (NoReply e))
   | inr buf =>
     match bytes_to_cstr buf with
-    | None => ([], AReplyErr EINVAL (Some (RErr EInvalidCString)))
+    | None => if answers then ([], AReplyErr EINVAL (Some (RErr EInvalidCString)))
+              else ([], ASync (NoReply (RErr EInvalidCString)))      (* `.map_err(..)?`: the error is returned, nothing is sent *)
     | Some name => k name
     end
   end.
@@ -77,10 +85,10 @@ Definition aattr_reply (fr : fsres) : aaction :=
   end.
 
 (* ------------------------------------------------------------------ the ten async handlers *)
-Definition ah_lookup : ahandler_fn := fun cfg h ctx r fr wcap =>
+Definition ah_lookup (sh : shape) : ahandler_fn := fun cfg h ctx r fr wcap =>
   let ino := h_nodeid h in
   let C m a := mk m ctx a in
-  awith_name r (h_len h) 0 (fun name =>
+  awith_name (sh_lookup_badname sh) r (h_len h) 0 (fun name =>
     ([C "lookup" [AN ino; AB name]],
      match fr with
      | FEntry e => if (cfg_minor cfg <? 4) && (e_inode e =? 0) then AReplyErr ENOENT None
@@ -170,11 +178,11 @@ Definition ah_fsyncdir : ahandler_fn := fun cfg h ctx r fr wcap =>
     ([C "fsyncdir" [AN ino; ABool (land32 (u32 8 s) 1); AN (u64 0 s)]], aunit_reply fr)).
 
 (* AsyncFileSystem::async_create returns (entry, handle, opts): no passthrough slot either *)
-Definition ah_create : ahandler_fn := fun cfg h ctx r fr wcap =>
+Definition ah_create (sh : shape) : ahandler_fn := fun cfg h ctx r fr wcap =>
   let ino := h_nodeid h in
   let C m a := mk m ctx a in
   awith_obj 16 r (fun s r' =>
-    awith_name r' (h_len h) 16 (fun name =>
+    awith_name (sh_create_badname sh) r' (h_len h) 16 (fun name =>
       ([C "create" [AN ino; AB name; AN (u32 0 s); AN (u32 4 s); AN (u32 8 s); AN (u32 12 s)]],
        match fr with
        | FErr e => AReplyErr (errno_of e) None
@@ -192,7 +200,7 @@ Definition ah_fallocate : ahandler_fn := fun cfg h ctx r fr wcap =>
    `match in_header.opcode` in async_handle_message (INTERRUPT and DESTROY sit in its nested default
    match), listed in the order of [handlers] of Model/Server.v *)
 Definition async_handlers (sh : shape) : list (N * bool * ahandler_fn) :=
-  [(1, true, ah_lookup);
+  [(1, true, ah_lookup sh);
    (2, false, fallback (h_forget 2));
    (3, true, ah_getattr);
    (4, true, ah_setattr);
@@ -223,7 +231,7 @@ Definition async_handlers (sh : shape) : list (N * bool * ahandler_fn) :=
    (32, false, fallback (h_getlk_setlk_setlkw 32));
    (33, false, fallback (h_getlk_setlk_setlkw 33));
    (34, false, fallback (h_access 34));
-   (35, true, ah_create);
+   (35, true, ah_create sh);
    (36, false, fallback (h_interrupt 36));
    (37, false, fallback (h_bmap 37));
    (38, false, fallback (h_destroy 38));
